@@ -1,6 +1,6 @@
 import Oracle.Util
 import SigModel.Model.OtsdbQuery
-/- C17 suite "alive": `rq` / `ws` lines have no model (the verdict is the PropFail of the harness: process alive, answer in
+/- C17 suite "alive": `rq` / `ws` / `gl` lines have no model (the verdict is the PropFail of the harness: process alive, answer in
    time); the Lean side checks the op-line grammar.  `om` / `ot` lines: the OpenTSDB `m=` and time parsers
    (SigModel/Model/OtsdbQuery.lean) print what harness/cmd/corr/c17_alive.go c17aExecModel prints for the real functions. -/
 namespace Oracle.C17A
@@ -52,6 +52,9 @@ def handle (cmd : String) (args : List String) : Option String :=
           (sv == "w" && (match h.toNat? with | some n => decide (n ≤ 20000) | none => false))
       | _ => false
     some (if (srv == "i" || srv == "q") && routeIdOk route && hx ≠ "" && (hexBytes? hx).isSome && (p :: ps).all prepOk then "ok" else "bad-op")
+  | "gl", [state, route, hx] =>
+    some (if ["complete", "error", "cancelled", "timeout"].contains state && routeIdOk route && hx ≠ "" && (hexBytes? hx).isSome then "ok" else "bad-op")
+  | "gl", _ => some "bad-op"
   | "ws", [route, hx] =>
     some (if routeIdOk route && hx ≠ "" && (hexBytes? hx).isSome then "ok" else "bad-op")
   | "om", [] => some (om [])
